@@ -42,7 +42,14 @@ fn case(ctx: &mut Ctx, r: &Range, len: usize, carrier: usize) {
         // characters of a non-ASCII string
         3 => (vec![Op::Substring(r.clone())], UNI[..len].concat()),
         // space separated words through the shorthand: printed by hand below
-        _ => (vec![Op::Split(" ".into(), r.clone())], if len == 0 { String::new() } else { LETTERS[..len].join(" ") }),
+        4 => (vec![Op::Split(" ".into(), r.clone())], if len == 0 { String::new() } else { LETTERS[..len].join(" ") }),
+        // split followed by another operation: the general interpreter path instead of the single-split section path
+        5 => (vec![Op::Split(",".into(), r.clone()), Op::Join("+".into())], LETTERS[..len].join(",")),
+        // split inside map
+        6 => (vec![Op::Split(";".into(), Range::Range(None, None, false)), Op::Map(vec![Op::Split(",".into(), r.clone()), Op::Join("+".into())]), Op::Join(";".into())],
+              format!("{};{}", LETTERS[..len].join(","), LETTERS[..len.min(2)].join(","))),
+        // a separator of two characters that overlaps itself, items ending in its first character
+        _ => (vec![Op::Split("--".into(), r.clone())], (0..len).map(|k| if k % 2 == 0 { format!("{}-", LETTERS[k]) } else { LETTERS[k].to_string() }).collect::<Vec<_>>().join("--")),
     };
     ctx.rep.eval();
     ctx.rep.nontrivial(&(r.clone(), len, carrier));
@@ -65,7 +72,7 @@ fn case(ctx: &mut Ctx, r: &Range, len: usize, carrier: usize) {
     if ctx.rep.samples.len() < 6 && len == 5 && matches!(r, Range::Range(Some(-3), Some(9), true)) {
         ctx.rep.sample(format!("{} on {:?} -> {}", t.text, input, t.real.show()));
     }
-    ctx.rep.bump(match carrier { 0 => "carrier_split", 1 => "carrier_slice", 2 => "carrier_substring_ascii", 3 => "carrier_substring_unicode", _ => "carrier_shorthand" });
+    ctx.rep.bump(match carrier { 0 => "carrier_split", 1 => "carrier_slice", 2 => "carrier_substring_ascii", 3 => "carrier_substring_unicode", 4 => "carrier_shorthand", 5 => "carrier_split_in_pipeline", 6 => "carrier_split_in_map", _ => "carrier_split_overlapping_separator" });
     judge(ctx, "C06", &t, &ops, &input, "apply_range_is_select / C06_carriers");
     // no index or range the parser accepts causes an error (on a well-typed carrier)
     if matches!(t.real, crate::driver::Out::Err | crate::driver::Out::Panic) && t.parsed_same {
@@ -78,7 +85,7 @@ fn case(ctx: &mut Ctx, r: &Range, len: usize, carrier: usize) {
 pub fn run(opts: &Opts) -> Report {
     let ranges = all_ranges();
     let mut cases: Vec<(Range, usize, usize)> = Vec::new();
-    for r in &ranges { for l in 0..=7usize { for c in 0..5 { cases.push((r.clone(), l, c)); } } }
+    for r in &ranges { for l in 0..=7usize { for c in 0..8 { cases.push((r.clone(), l, c)); } } }
     let exhaustive_n = cases.len() as u64;
     let random_n = opts.cases(4_000, 200_000);
     let cases_ref = &cases;
@@ -91,7 +98,7 @@ pub fn run(opts: &Opts) -> Report {
             } else {
                 let r = crate::gens::range(&mut ctx.rng);
                 let l = ctx.rng.below(8);
-                let c = ctx.rng.below(5);
+                let c = ctx.rng.below(8);
                 case(ctx, &r, l, c);
             }
         });
